@@ -40,6 +40,13 @@ Theorem C13_pipe_left_to_right : forall X call s x fs v, x <> [] -> resolve s x 
   eval_pipe X call s {| p_initial := x; p_segs := map (fun fa => SFilter (fst fa) (snd fa)) fs |} = apply_chain call s fs v.
 Proof. exact pipe_left_to_right. Qed.
 Print Assumptions C13_pipe_left_to_right.
+(* 2b. ... also when the pipe begins with a call: g(args) | f1 | ... | fn calls g without a piped value and pipes
+   its result on *)
+Theorem C13_head_call_left_to_right : forall X call s g gargs fs,
+  eval_pipe X call s {| p_initial := []; p_segs := SFilter g gargs :: map (fun fa => SFilter (fst fa) (snd fa)) fs |} =
+  match eval_filter call s g gargs None false with XVal v => apply_chain call s fs v | e => e end.
+Proof. exact head_call_left_to_right. Qed.
+Print Assumptions C13_head_call_left_to_right.
 (* 3. an unknown function, and an error raised by a function, fail with an error that names the function *)
 Theorem C13_unknown_function_named : forall call s f args (input : option val) (w : bool),
   call f ((if w then [match input with Some v => v | None => VNil end] else []) ++ map (resolve_argument s) args) = None ->
@@ -54,7 +61,9 @@ Print Assumptions C13_function_error_named.
 Example C13_parse_examples :
   parse_pipe (bs "item | double | . > 5") = {| p_initial := []; p_segs := [SExpr (bs "item | double | . > 5")] |} /\
   parse_pipe (bs "name | upper | default(""x"", 2)") = {| p_initial := bs "name"; p_segs := [SFilter (bs "upper") []; SFilter (bs "default") [bs """x"""; bs "2"]] |} /\
-  parse_pipe (bs "len(items)") = {| p_initial := []; p_segs := [SFilter (bs "len") [bs "items"]] |}.
+  parse_pipe (bs "len(items)") = {| p_initial := []; p_segs := [SFilter (bs "len") [bs "items"]] |} /\
+  parse_pipe (bs "len(items) | double | pad('x')") = {| p_initial := []; p_segs := [SFilter (bs "len") [bs "items"]; SFilter (bs "double") []; SFilter (bs "pad") [bs "'x'"]] |} /\
+  parse_pipe (bs "items[0] | f") = {| p_initial := bs "items[0]"; p_segs := [SFilter (bs "f") []] |}.
 Proof. vm_compute. auto. Qed.
 
 (* a string-literal argument is copied up to its matching quote, quotes included: a quote of the other kind, a
